@@ -619,3 +619,55 @@ pub fn unit_c02(seed: u64, ctx: &mut Ctx, ctl: &mut UnitCtl) {
         ctl.after_case(ctx, || Scenario::WFault(scn.clone()));
     }
 }
+
+
+/// C12 around one large record: a polyline of 70 000 points (more than 1 MiB of content) between two
+/// small ones, then finalize, written straight to the devices (no buffer of the harness in between,
+/// so that every byte the library hands over reaches the device within the call); the first 40 and
+/// the last 200 .shp operations of every call, and every .shx operation, fail once (one-shot and
+/// persistent): the failure must surface from the call in progress.
+pub fn large_unit(unit: u64, ctx: &mut Ctx, ctl: &mut UnitCtl) {
+    let w = WProg { shapes: vec![grid_spec(3, 1, 2, 3), grid_spec(3, 1, 70_000, 11), grid_spec(3, 1, 3, 60)], others: vec![], calls: vec![WCall::W(0), WCall::W(1), WCall::W(2), WCall::Fin], ending: Ending::Drop, with_shx: true, stack: StackCfg::Direct };
+    let Some(g) = golden(&w) else {
+        ctx.fail("HARNESS", "invalid-scenario", "workload", "the large workload does not run cleanly".to_string());
+        return;
+    };
+    ctx.stats.reach("large-record-workload");
+    // per call: the .shp operation indices it issues in the undisturbed run
+    let mut picks: Vec<(usize, u32)> = Vec::new();
+    {
+        let world = World::new(Plan::default());
+        let run = run_writer(&world, &w);
+        let wb = world.borrow();
+        let shp_evs = wb.events_of(SHP);
+        for m in &run.marks {
+            let ops: Vec<u32> = shp_evs.iter().enumerate().filter(|(_, ei)| **ei >= m.first_ev && **ei < m.end_ev).map(|(k, _)| k as u32).collect();
+            let n = ops.len();
+            for (j, k) in ops.iter().enumerate() {
+                if j < 40 || j + 200 >= n {
+                    picks.push((SHP, *k));
+                }
+            }
+        }
+        for k in 0..g.ops[SHX] {
+            picks.push((SHX, k));
+        }
+    }
+    // the work is split over 8 units
+    for (pi, (dev, k)) in picks.into_iter().enumerate() {
+        if pi as u64 % 8 != unit % 8 {
+            continue;
+        }
+        for persistent in [false, true] {
+            let mut plan = Plan::default();
+            plan.faults.push(Fault { dev: dev as u8, at: k, kind: FaultKind::Err((k % 4) as u8), persistent });
+            let scn = WfScn { w: w.clone(), plan };
+            if !ctl.before_case(|| Scenario::WFault(scn.clone())) {
+                continue;
+            }
+            ctx.stats.evaluations += 1;
+            run_faulted(&scn, &g, ctx);
+            ctl.after_case(ctx, || Scenario::WFault(scn.clone()));
+        }
+    }
+}
